@@ -493,10 +493,13 @@ func c19Pair(cfg []citem, arrayForm bool, c *report.Collector, l *report.Local) 
 func c19ConsForms() []cval {
 	// (plain strings are not spelled like a traversal: a JSON string that is one IS a reference under a
 	// Reference constraint - the documented legacy form, covered as "reflegacy" in part 1)
-	return []cval{cStr("x y"), cStr("foo !"), cStr(""), cNum("3"), cBool("true"), cRef("decl.foo"), cRef("decl.foo.bar"), cTmpl("decl.foo.bar"),
+	return []cval{cStr("x y"), cStr("foo !"), cStr(""), cStr("fn(decl.foo.bar)"), cStr("nosuchfn(decl.foo)"), cStr("[decl.foo]"), cNum("3"), cBool("true"), cRef("decl.foo"), cRef("decl.foo.bar"), cTmpl("decl.foo.bar"),
 		cList(), cList(cStr("a b")), cList(cStr("a b"), cRef("decl.foo.bar")), cList(cList(cStr("n n"))), cList(cObj("foo", cStr("x y"))),
 		cObj(), cObj("foo", cStr("x y")), cObj("foo", cStr("x y"), "bar", cBool("true")), cObj("foo", cRef("decl.foo.bar"), "bar", cRef("decl.foo")), cObj("k", cObj("foo", cList(cNum("1"), cNum("2")))),
 		cObj("foo", cList(cStr("a b"), cStr("b c"))), cObj("zz", cRef("decl.foo.bar")),
+		// objects below the top level holding keys their type may not declare
+		cList(cObj("zz", cRef("decl.foo.bar"))), cList(cObj("foo", cRef("decl.foo.bar"), "zz", cRef("decl.foo"))), cObj("k", cObj("zz", cRef("decl.foo.bar"))),
+		cList(cList(cObj("zz", cRef("decl.foo.bar")))),
 		// references interpolated into keys
 		cObj("${decl.foo.bar}-x", cStr("v v")), cObj("${decl.foo.bar}", cStr("v v"), "plain", cRef("decl.foo"))}
 }
